@@ -909,6 +909,38 @@ static void run_ms_session(vrng *r, int steps)
    if (pj) opus_projection_decoder_destroy(pj);
 }
 
+/* ------------------------------------------------------------------ fixed corpus
+   Packets that once made a decode entry point return an undocumented error.
+   1: the 168-byte CELT-only super-wide-band 20 ms stereo packet of tools/c03_budget_packets.txt (found by C03's bit-budget
+      search): two PVQ reads in the last coded band leave ec_tell = 8*len + 1, and before /repo 59715713
+      celt_decode_with_ec_dred returned OPUS_INTERNAL_ERROR, which opus_decode passed on.  Every entry point must return
+      960*Fs/48000 samples at every rate, for a mono and a stereo decoder. */
+static const char *CORPUS_HEX[] = {
+   "x" "dcbedb13fdf8bb1c7392a9b8c396d39f0459f6fe38def9ac92e087c19ade0bef4f8d98f64ccef84a6d372ebe9c3b9495"
+   "dce7d50810b6c172589fd786066760fe3d75f21b2ddd51a03a7c2b7f4a675881d1cd249f615ab6051d0319fb9042c4b2"
+   "8396d4acab752d122ac756b0cf6c61799beb45a22e96c7d44d2667210ba2dde1e3f4016151d3d17f2e477c4b08c1e0c0"
+   "ee5d787b9bcc355beb0ff38c4b7f7221dc6f948e126e12f2",
+};
+static void run_corpus(void)
+{
+   static unsigned char b[1500]; int k, ri, ch, fmt;
+   for (k = 0; k < (int)(sizeof CORPUS_HEX / sizeof CORPUS_HEX[0]); k++) {
+      long n = vunhex(CORPUS_HEX[k], b, sizeof b);
+      if (n <= 0) continue;
+      for (ri = 0; ri < 5; ri++) for (ch = 1; ch <= 2; ch++) for (fmt = FMT16; fmt <= FMTN1; fmt++) {
+         OpusDecoder *st = do_init(RATES[ri], ch); int want = opus_packet_get_nb_samples(b, (opus_int32)n, RATES[ri]); callres cr;
+         if (!st) continue;
+         cr = do_call(st, fmt, b, n, 0, n, fmt == FMTN1 ? 5760 * RATES[ri] / 48000 : want, 0, NULL);
+         if (fmt != FMTN1 && cr.ret != want) {
+            snprintf(G.pending, sizeof G.pending, "decskel corpus %d %d %d %s", k + 1, RATES[ri], ch, fmt_name[fmt]);
+            witness("corpus", "corpus packet %d (%ld bytes) decoded to %s instead of %d samples", k + 1, n, ret_str(cr.ret), want);
+            G.pending[0] = 0;
+         }
+         opus_decoder_destroy(st);
+      }
+   }
+}
+
 /* ------------------------------------------------------------------ packet-inspection functions read only the packet
    "Every packet-inspection function reads only the packet" (C01): opus_packet_get_bandwidth / _nb_channels /
    _samples_per_frame / _nb_frames / _nb_samples, opus_decoder_get_nb_samples, opus_packet_has_lbrr, opus_packet_parse,
@@ -1038,6 +1070,7 @@ int main(int argc, char **argv)
    if (argc >= 4 && (!strcmp(argv[1], "rand") || !strcmp(argv[1], "ms"))) {
       r.s = strtoull(argv[2], 0, 10) * 0xD1342543DE82EF95ULL + 0x632BE59BD9B4E019ULL + (argv[1][0] == 'm'); r.s ^= vnext(&r) >> 7;   /* not a shift of another seed's Weyl sequence */ n = atol(argv[3]);
       G.quiet = argc >= 5 && !strcmp(argv[4], "quiet");
+      if (argv[1][0] == 'r') run_corpus();
       for (i = 0; i < n; i++) { if (argv[1][0] == 'r') run_session(&r, 60); else run_ms_session(&r, 30); }
       printf("# %s seed=%s sessions=%ld calls=%ld witnesses=%ld\n", argv[1], argv[2], n, G.n_calls, G.n_w);
       return 0;
